@@ -1,7 +1,39 @@
 import GardenVerif.Lemmas.Parse
 /-!
-C01 (parser half) — the parser model M2 (`pn = false`: /repo HEAD with the left-assoc, tuple-progress and
-eof-progress repairs) never panics. See the end of the file for the main theorem and its coverage.
+C01 (parser half) — the parser model M2 (`pn = false` = /repo HEAD: left-assoc, tuple-progress and
+eof-progress repairs) does not panic.
+
+PROVED (`parse_no_panic_partial`, `parseBlock_no_panic`, `parseExpression_progress`, `specs_all`), for every
+non-empty lexer-like token list (`LexLike`: a float-looking token is a whole float, a symbol-like token
+sits on one line — both guaranteed by the real lexer), EVERY fuel and every state inside the list:
+none of the panic sites in or below `parse_expression` / `parse_block` fires, i.e. all of
+  parse_expression(_with_trailing), its trailing loop, parse_call_arguments, parse_comma_separated_exprs,
+  parse_expression_no_trailing, parse_simple_expression, parse_tuple_literal_or_parentheses (+loop),
+  parse_list_literal, parse_dict_literal (+items), parse_lambda, parse_assert, parse_if, parse_while,
+  parse_try, parse_for_in, parse_return, break/continue, parse_struct_literal (+fields), parse_match
+  (+loop), parse_case_block, parse_block (+loop), parse_let, parse_assign, parse_assign_update,
+  parse_integer, parse_float, parse_variable, parse_symbol, require_a_token, check_required_token /
+  require_token, parse_type_hint / parse_type_arguments / parse_tuple_type_hint (+loops),
+  parse_type_params, parse_colon_and(_hint_opt), parse_parameter(s), parse_let_destination (+loop),
+  parse_pattern
+(assertions parser.rs:328, 404, 1082, 1361, 2334 and the former 1995, 2183, 2812; `expect`s 86/151;
+`unwrap`s 229/512; `unpop`), together with the progress invariant the assertions gesture at: a parse
+function returns at or beyond its start index — except `parse_symbol` and its direct users at the end
+of the file, which may step back onto a last token that is not symbol-like (`Mv`) — and
+`parse_expression` returns strictly beyond it unless the result is `Invalid` / a placeholder.
+The proof is by induction on fuel for all fuel at once (`Specs toks fuel`), so it does not depend on
+any termination bound.
+
+NOT covered (the full `parse_no_panic : toks ≠ [] → LexLike toks → ¬ isPanic (parseItems fuel toks)`):
+the definitions level — parse_function, parse_method, parse_test, parse_enum (+body, variant),
+parse_struct (+fields), parse_import, parse_definition, parse_toplevel_item and the items loop with
+its assertion parser.rs:3067. Nothing blocks them (same `wp` rules; the items-loop assertion needs
+"a non-placeholder item consumed a token", which follows from `kw_strict` for the keyword-led
+definitions and from `Ex` for expression items); they were not done in the time box. They are covered
+by the correspondence / fuzz runs (model PANIC ⇔ implementation PANIC).
+
+Found while proving (all real, replayed on the binary): `x NEWLINE else{ }` (a keyword on a later line
+glued to `{`) recurses without bound in parse_struct_literal → stack overflow; see the report.
 -/
 
 namespace C01Parse
@@ -723,6 +755,1108 @@ theorem parsePattern_ok (fuel : Nat) (s : St) (hs : s.idx ≤ toks.length) :
   · exact m1.1
 
 end level1
+
+/-! ### The expression block -/
+
+set_option linter.unusedSectionVars false
+set_option linter.unusedSimpArgs false
+
+/-- forward, in range -/
+def Fw (toks : Toks) (s s' : St) : Prop := s.idx ≤ s'.idx ∧ s'.idx ≤ toks.length
+/-- forward, and strictly forward -/
+def Sf (toks : Toks) (s s' : St) : Prop := s.idx < s'.idx ∧ s'.idx ≤ toks.length
+/-- expression result: forward; a result that is not Invalid / a placeholder consumed something -/
+def Ex (toks : Toks) (s : St) (r : PExpr) (s' : St) : Prop :=
+  s.idx ≤ s'.idx ∧ s'.idx ≤ toks.length ∧ (r.e.isInvalidOrPlaceholder = false → s.idx < s'.idx)
+
+/-- The specifications of the 28 functions of the expression block at one fuel level. -/
+structure Specs (toks : Toks) (fuel : Nat) : Prop where
+  exprT : ∀ b s, s.idx ≤ toks.length → wp (parseExpressionT toks false b fuel) (fun r s' => Ex toks s r s') s
+  trail : ∀ b e s, s.idx ≤ toks.length →
+    wp (trailing toks false b fuel e) (fun r s' => Fw toks s s' ∧ (r = e ∨ s.idx < s'.idx)) s
+  callArgs : ∀ s, s.idx ≤ toks.length → wp (parseCallArguments toks false fuel)
+    (fun _ s' => Fw toks s s' ∧ (tokIs toks s.idx "(" = true → s.idx < s'.idx)) s
+  comma : ∀ ol term acc s, s.idx ≤ toks.length → wp (commaSep toks false fuel ol term acc) (fun _ s' => Fw toks s s') s
+  noTrail : ∀ s, s.idx ≤ toks.length → wp (parseNoTrailing toks false fuel) (fun r s' => Ex toks s r s') s
+  simple : ∀ s, s.idx ≤ toks.length → wp (parseSimple toks false fuel) (fun r s' => Ex toks s r s') s
+  tupleParen : ∀ s, s.idx ≤ toks.length → wp (parseTupleOrParen toks false fuel)
+    (fun _ s' => Fw toks s s' ∧ (tokIs toks s.idx "(" = true → s.idx < s'.idx)) s
+  tupleL : ∀ acc s, s.idx ≤ toks.length → wp (tupleLoop toks false fuel acc) (fun _ s' => Fw toks s s') s
+  listLit : ∀ s, s.idx ≤ toks.length → wp (parseListLiteral toks false fuel)
+    (fun _ s' => Fw toks s s' ∧ (tokIs toks s.idx "[" = true → s.idx < s'.idx)) s
+  dictLit : ∀ s, s.idx ≤ toks.length → wp (parseDictLiteral toks false fuel)
+    (fun _ s' => Fw toks s s' ∧ (tokIs toks s.idx "Dict" = true → s.idx < s'.idx)) s
+  dictL : ∀ acc s, s.idx ≤ toks.length → wp (dictLoop toks false fuel acc) (fun _ s' => Fw toks s s') s
+  lambda : ∀ s, s.idx ≤ toks.length → tokIs toks s.idx "fun" = true →
+    wp (parseLambda toks false fuel) (fun _ s' => Sf toks s s') s
+  assertE : ∀ s, s.idx ≤ toks.length → tokIs toks s.idx "assert" = true →
+    wp (parseAssert toks false fuel) (fun _ s' => Sf toks s s') s
+  ifE : ∀ s, s.idx ≤ toks.length → tokIs toks s.idx "if" = true →
+    wp (parseIf toks false fuel) (fun _ s' => Sf toks s s') s
+  whileE : ∀ s, s.idx ≤ toks.length → tokIs toks s.idx "while" = true →
+    wp (parseWhile toks false fuel) (fun _ s' => Sf toks s s') s
+  tryE : ∀ s, s.idx ≤ toks.length → tokIs toks s.idx "try" = true →
+    wp (parseTry toks false fuel) (fun _ s' => Sf toks s s') s
+  forE : ∀ s, s.idx ≤ toks.length → tokIs toks s.idx "for" = true →
+    wp (parseForIn toks false fuel) (fun _ s' => Sf toks s s') s
+  retE : ∀ s, s.idx ≤ toks.length → tokIs toks s.idx "return" = true →
+    wp (parseReturn toks false fuel) (fun _ s' => Sf toks s s') s
+  structLit : ∀ s, s.idx + 2 ≤ toks.length → tokIs toks s.idx "}" = false →
+    wp (parseStructLiteral toks false fuel) (fun _ s' => Sf toks s s') s
+  fieldsL : ∀ acc s, s.idx ≤ toks.length → wp (fieldsLoop toks false fuel acc)
+    (fun _ s' => Mv toks s.idx s'.idx ∧ (s.idx + 2 ≤ toks.length → tokIs toks s.idx "}" = false → s.idx < s'.idx)) s
+  matchE : ∀ s, s.idx ≤ toks.length → tokIs toks s.idx "match" = true →
+    wp (parseMatch toks false fuel) (fun _ s' => Sf toks s s') s
+  matchL : ∀ acc s, s.idx ≤ toks.length → wp (matchLoop toks false fuel acc) (fun _ s' => Mv toks s.idx s'.idx) s
+  caseBlock : ∀ s, s.idx ≤ toks.length → wp (parseCaseBlock toks false fuel) (fun _ s' => Fw toks s s') s
+  block : ∀ s, s.idx ≤ toks.length → wp (parseBlock toks false fuel) (fun _ s' => Fw toks s s') s
+  blockL : ∀ acc s, s.idx ≤ toks.length → wp (blockLoop toks false fuel acc) (fun _ s' => Fw toks s s') s
+  letE : ∀ s, s.idx ≤ toks.length → tokIs toks s.idx "let" = true →
+    wp (parseLet toks false fuel) (fun _ s' => Sf toks s s') s
+  assign : ∀ s, s.idx < toks.length → wp (parseAssign toks false fuel) (fun r s' => Ex toks s r s') s
+  update : ∀ s, s.idx + 2 ≤ toks.length → wp (parseAssignUpdate toks false fuel) (fun _ s' => Sf toks s s') s
+
+theorem specs_zero (toks : Toks) : Specs toks 0 := by
+  constructor <;> intros <;>
+    first
+      | (rw [parseExpressionT]; simp [wp_outOfFuel]) | (rw [trailing]; simp [wp_outOfFuel])
+      | (rw [parseCallArguments]; simp [wp_outOfFuel]) | (rw [commaSep]; simp [wp_outOfFuel])
+      | (rw [parseNoTrailing]; simp [wp_outOfFuel]) | (rw [parseSimple]; simp [wp_outOfFuel])
+      | (rw [parseTupleOrParen]; simp [wp_outOfFuel]) | (rw [tupleLoop]; simp [wp_outOfFuel])
+      | (rw [parseListLiteral]; simp [wp_outOfFuel]) | (rw [parseDictLiteral]; simp [wp_outOfFuel])
+      | (rw [dictLoop]; simp [wp_outOfFuel]) | (rw [parseLambda]; simp [wp_outOfFuel])
+      | (rw [parseAssert]; simp [wp_outOfFuel]) | (rw [parseIf]; simp [wp_outOfFuel])
+      | (rw [parseWhile]; simp [wp_outOfFuel]) | (rw [parseTry]; simp [wp_outOfFuel])
+      | (rw [parseForIn]; simp [wp_outOfFuel]) | (rw [parseReturn]; simp [wp_outOfFuel])
+      | (rw [parseStructLiteral]; simp [wp_outOfFuel]) | (rw [fieldsLoop]; simp [wp_outOfFuel])
+      | (rw [parseMatch]; simp [wp_outOfFuel]) | (rw [matchLoop]; simp [wp_outOfFuel])
+      | (rw [parseCaseBlock]; simp [wp_outOfFuel]) | (rw [parseBlock]; simp [wp_outOfFuel])
+      | (rw [blockLoop]; simp [wp_outOfFuel]) | (rw [parseLet]; simp [wp_outOfFuel])
+      | (rw [parseAssign]; simp [wp_outOfFuel]) | (rw [parseAssignUpdate]; simp [wp_outOfFuel])
+
+theorem rt_le {b : Bool} {i j : Nat} (h : (b = true ∧ j = i + 1) ∨ (b = false ∧ j = i)) : i ≤ j ∧ j ≤ i + 1 := by
+  rcases h with ⟨_, h⟩ | ⟨_, h⟩ <;> omega
+
+theorem rt_eq {b : Bool} {i j : Nat} (h : (b = true ∧ j = i + 1) ∨ (b = false ∧ j = i)) (hb : b = true) : j = i + 1 := by
+  rcases h with ⟨_, h⟩ | ⟨hf, _⟩
+  · exact h
+  · rw [hb] at hf; cases hf
+
+theorem tokIs_get {toks : Toks} {i : Nat} {x : String} (h : tokIs toks i x = true) :
+    ∃ t, toks[i]? = some t ∧ t.text = x := by
+  unfold tokIs at h
+  cases ht : toks[i]? with
+  | none => simp [ht] at h
+  | some t => exact ⟨t, rfl, by simpa [ht] using h⟩
+
+/-- After popping a symbol-like token at `i`, whatever follows (movement `Mv` from `i+1`) ends beyond `i`:
+the only backward move is onto a LAST token that is not symbol-like. -/
+theorem kw_strict {toks : Toks} {i j : Nat} {kw : String} (hk : tokIs toks i kw = true) (hsym : isSymbolTok kw = true)
+    (hm : Mv toks (i + 1) j) : i < j := by
+  obtain ⟨t, ht, hx⟩ := tokIs_get hk
+  rcases hm.2 with h | ⟨h1, h2, h3⟩
+  · omega
+  · have hlast : toks[toks.length - 1]? = some t := by
+      have : toks.length - 1 = i := by omega
+      rw [this]; exact ht
+    have := lastSym_of_last hlast (by rw [hx]; exact hsym)
+    omega
+
+theorem ite_intro {c : Prop} [Decidable c] {a b : Prop} (ha : c → a) (hb : ¬c → b) : if c then a else b := by
+  split
+  · exact ha (by assumption)
+  · exact hb (by assumption)
+
+macro "ifomega" : tactic =>
+  `(tactic| first | rw [if_pos (by omega)] | rw [if_neg (by omega)])
+
+section level2
+variable (toks : Toks) (hne : toks ≠ []) (hl : LexLike toks) (fuel : Nat) (ih : Specs toks fuel)
+include hne hl ih
+
+theorem step_blockL : ∀ acc s, s.idx ≤ toks.length →
+    wp (blockLoop toks false (fuel + 1) acc) (fun _ s' => Fw toks s s') s := by
+  intro acc s hs
+  rw [blockLoop]
+  wpsimp'
+  cases ht : toks[s.idx]? with
+  | none => tk ht; wpsimp'; exact ⟨Nat.le_refl _, hs⟩
+  | some t =>
+    tk ht
+    split
+    · wpsimp'; exact ⟨Nat.le_refl _, hs⟩
+    · wpsimp'
+      refine wp_mono (ih.exprT true s hs) ?_
+      intro e s1 m1
+      split
+      · exact ⟨m1.1, m1.2.1⟩
+      · rename_i hinv
+        have hlt := m1.2.2 (by simpa using hinv)
+        split
+        · refine wp_mono (ih.blockL _ s1 m1.2.1) ?_
+          intro _ s2 m2
+          exact ⟨Nat.le_trans m1.1 m2.1, m2.2⟩
+        · omega
+
+theorem step_block : ∀ s, s.idx ≤ toks.length →
+    wp (parseBlock toks false (fuel + 1)) (fun _ s' => Fw toks s s') s := by
+  intro s hs
+  rw [parseBlock]
+  wpsimp'
+  refine wp_mono (spec_requireToken toks hne "{" s hs) ?_
+  intro o s1 m1
+  split
+  · exact ⟨by omega, m1.1⟩
+  · refine wp_mono (ih.blockL [] s1 m1.1) ?_
+    intro es s2 m2
+    refine wp_mono (spec_requireToken toks hne "}" s2 m2.2) ?_
+    intro _ s3 m3
+    exact ⟨by have := m2.1; omega, m3.1⟩
+
+theorem step_comma : ∀ ol term acc s, s.idx ≤ toks.length →
+    wp (commaSep toks false (fuel + 1) ol term acc) (fun _ s' => Fw toks s s') s := by
+  intro ol term acc s hs
+  rw [commaSep]
+  wpsimp'
+  split
+  · exact ⟨Nat.le_refl _, hs⟩
+  · refine wp_mono (ih.exprT true s hs) ?_
+    intro e s1 m1
+    split
+    · exact ⟨m1.1, m1.2.1⟩
+    · rename_i hinv
+      have hlt := m1.2.2 (by simpa using hinv)
+      simp only [gt_iff_lt, hlt, decide_true, Bool.not_true, Bool.false_eq_true, ↓reduceIte]
+      · have fin : ∀ s2 : St, s1.idx ≤ s2.idx → s2.idx ≤ toks.length →
+            wp (commaSep toks false fuel ol term (acc ++ [e.e])) (fun x s' => Fw toks s s') s2 := by
+          intro s2 h12 h2
+          refine wp_mono (ih.comma ol term _ s2 h2) ?_
+          intro _ s3 m3
+          exact ⟨by have := m3.1; omega, m3.2⟩
+        cases ht1 : toks[s1.idx]? with
+        | none => tk ht1; wpsimp'; exact ⟨m1.1, m1.2.1⟩
+        | some t1 =>
+          have hl1 := get_lt ht1
+          tk ht1
+          split
+          · wpsimp'
+            tk ht1
+            exact fin ⟨s1.idx + 1, s1.diags⟩ (Nat.le_succ _) (by first | omega | (simp only []; omega))
+          · split
+            · wpsimp'
+              split
+              · exact fin _ (Nat.le_refl _) m1.2.1
+              · split
+                · exact fin _ (Nat.le_refl _) m1.2.1
+                · exact ⟨m1.1, m1.2.1⟩
+            · wpsimp'; exact ⟨m1.1, m1.2.1⟩
+
+theorem step_callArgs : ∀ s, s.idx ≤ toks.length → wp (parseCallArguments toks false (fuel + 1))
+    (fun _ s' => Fw toks s s' ∧ (tokIs toks s.idx "(" = true → s.idx < s'.idx)) s := by
+  intro s hs
+  rw [parseCallArguments]
+  wpsimp'
+  refine wp_mono (spec_requireToken toks hne "(" s hs) ?_
+  intro o s1 m1
+  refine wp_mono (ih.comma _ _ _ s1 m1.1) ?_
+  intro args s2 m2
+  refine wp_mono (spec_closePos toks hne ")" s2 m2.2) ?_
+  intro c s3 m3
+  refine ⟨⟨by have := m2.1; omega, m3.2.2⟩, ?_⟩
+  intro hp
+  have := m2.1
+  rcases m1.2 with ⟨_, h⟩ | ⟨h, _⟩
+  · omega
+  · rw [hp] at h; cases h
+
+theorem step_tupleL : ∀ acc s, s.idx ≤ toks.length →
+    wp (tupleLoop toks false (fuel + 1) acc) (fun _ s' => Fw toks s s') s := by
+  intro acc s hs
+  rw [tupleLoop]
+  wpsimp'
+  split
+  · exact ⟨Nat.le_refl _, hs⟩
+  · have body : ∀ s0 : St, s.idx ≤ s0.idx → s0.idx ≤ toks.length →
+        if tokIs toks s0.idx ")" = true then Fw toks s s0 else
+          wp (parseExpressionT toks false true fuel) (fun a s' =>
+            if a.e.isInvalidOrPlaceholder = true then Fw toks s s'
+            else if s'.idx > s0.idx then wp (tupleLoop toks false fuel (acc ++ [a.e])) (fun x s' => Fw toks s s') s'
+              else False) s0 := by
+      intro s0 h0 h0l
+      split
+      · exact ⟨h0, h0l⟩
+      · refine wp_mono (ih.exprT true s0 h0l) ?_
+        intro e s1 m1
+        split
+        · exact ⟨by have := m1.1; omega, m1.2.1⟩
+        · rename_i hinv
+          have hlt := m1.2.2 (by simpa using hinv)
+          ifomega
+          refine wp_mono (ih.tupleL _ s1 m1.2.1) ?_
+          intro _ s2 m2
+          exact ⟨by have := m2.1; omega, m2.2⟩
+    split
+    · split
+      · rename_i t ht
+        have hl1 := get_lt ht
+        exact body ⟨s.idx + 1, s.diags⟩ (Nat.le_succ _) (by first | omega | (simp only []; omega))
+      · exact body s (Nat.le_refl _) hs
+    · exact body s (Nat.le_refl _) hs
+
+theorem step_tupleParen : ∀ s, s.idx ≤ toks.length → wp (parseTupleOrParen toks false (fuel + 1))
+    (fun _ s' => Fw toks s s' ∧ (tokIs toks s.idx "(" = true → s.idx < s'.idx)) s := by
+  intro s hs
+  rw [parseTupleOrParen]
+  wpsimp'
+  refine wp_mono (spec_requireToken toks hne "(" s hs) ?_
+  intro o s1 m1
+  have b1 := rt_le m1.2
+  have fin : ∀ s2 : St, s1.idx ≤ s2.idx → s2.idx ≤ toks.length →
+      wp (requireToken toks ")") (fun a s' => Fw toks s s' ∧ (tokIs toks s.idx "(" = true → s.idx < s'.idx)) s2 := by
+    intro s2 h12 h2
+    refine wp_mono (spec_requireToken toks hne ")" s2 h2) ?_
+    intro _ s3 m3
+    have b3 := rt_le m3.2
+    refine ⟨⟨by omega, m3.1⟩, fun hp => ?_⟩
+    have := rt_eq m1.2 hp
+    omega
+  split
+  · exact fin s1 (Nat.le_refl _) m1.1
+  · refine wp_mono (ih.exprT true s1 m1.1) ?_
+    intro e s2 m2
+    split
+    · refine wp_mono (ih.tupleL _ s2 m2.2.1) ?_
+      intro es s3 m3
+      exact fin s3 (by have := m2.1; have := m3.1; omega) m3.2
+    · exact fin s2 m2.1 m2.2.1
+
+theorem step_listLit : ∀ s, s.idx ≤ toks.length → wp (parseListLiteral toks false (fuel + 1))
+    (fun _ s' => Fw toks s s' ∧ (tokIs toks s.idx "[" = true → s.idx < s'.idx)) s := by
+  intro s hs
+  rw [parseListLiteral]
+  wpsimp'
+  refine wp_mono (spec_requireToken toks hne "[" s hs) ?_
+  intro o s1 m1
+  have b1 := rt_le m1.2
+  refine wp_mono (ih.comma _ _ _ s1 m1.1) ?_
+  intro items s2 m2
+  refine wp_mono (spec_closePos toks hne "]" s2 m2.2) ?_
+  intro c s3 m3
+  have := m2.1
+  refine ⟨⟨by omega, m3.2.2⟩, fun hp => ?_⟩
+  have := rt_eq m1.2 hp
+  omega
+
+theorem step_dictL : ∀ acc s, s.idx ≤ toks.length →
+    wp (dictLoop toks false (fuel + 1) acc) (fun _ s' => Fw toks s s') s := by
+  intro acc s hs
+  rw [dictLoop]
+  wpsimp'
+  split
+  · exact ⟨Nat.le_refl _, hs⟩
+  · refine wp_mono (ih.exprT true s hs) ?_
+    intro k s1 m1
+    split
+    · exact ⟨m1.1, m1.2.1⟩
+    · rename_i hinv
+      have hlt := m1.2.2 (by simpa using hinv)
+      refine wp_mono (spec_requireToken toks hne "=>" s1 m1.2.1) ?_
+      intro _ s2 m2
+      have b2 := rt_le m2.2
+      refine wp_mono (ih.exprT true s2 m2.1) ?_
+      intro v s3 m3
+      have h3 : s.idx < s3.idx := by have := m3.1; omega
+      simp only [gt_iff_lt, h3, decide_true, Bool.not_true, Bool.false_eq_true, ↓reduceIte]
+      have fin : ∀ s4 : St, s3.idx ≤ s4.idx → s4.idx ≤ toks.length →
+          wp (dictLoop toks false fuel (acc ++ [KV.mk k.e v.e])) (fun x s' => Fw toks s s') s4 := by
+        intro s4 h34 h4
+        refine wp_mono (ih.dictL _ s4 h4) ?_
+        intro _ s5 m5
+        exact ⟨by have := m5.1; omega, m5.2⟩
+      cases ht3 : toks[s3.idx]? with
+      | none => tk ht3; wpsimp'; exact ⟨by simp only []; omega, by simp only []; exact m3.2.1⟩
+      | some t3 =>
+        have hl3 := get_lt ht3
+        tk ht3
+        split
+        · wpsimp'
+          tk ht3
+          exact fin ⟨s3.idx + 1, s3.diags⟩ (Nat.le_succ _) (by first | omega | (simp only []; omega))
+        · split
+          · wpsimp'
+            exact fin _ (Nat.le_refl _) m3.2.1
+          · wpsimp'; exact ⟨by omega, m3.2.1⟩
+
+theorem step_dictLit : ∀ s, s.idx ≤ toks.length → wp (parseDictLiteral toks false (fuel + 1))
+    (fun _ s' => Fw toks s s' ∧ (tokIs toks s.idx "Dict" = true → s.idx < s'.idx)) s := by
+  intro s hs
+  rw [parseDictLiteral]
+  wpsimp'
+  refine wp_mono (spec_requireToken toks hne "Dict" s hs) ?_
+  intro o s1 m1
+  have b1 := rt_le m1.2
+  refine wp_mono (spec_requireToken toks hne "[" s1 m1.1) ?_
+  intro _ s2 m2
+  have b2 := rt_le m2.2
+  refine wp_mono (ih.dictL _ s2 m2.1) ?_
+  intro items s3 m3
+  refine wp_mono (spec_requireToken toks hne "]" s3 m3.2) ?_
+  intro c s4 m4
+  have b4 := rt_le m4.2
+  have := m3.1
+  refine ⟨⟨by omega, m4.1⟩, fun hp => ?_⟩
+  have := rt_eq m1.2 hp
+  omega
+
+theorem step_caseBlock : ∀ s, s.idx ≤ toks.length →
+    wp (parseCaseBlock toks false (fuel + 1)) (fun _ s' => Fw toks s s') s := by
+  intro s hs
+  rw [parseCaseBlock]
+  wpsimp'
+  have fin : ∀ (b : PBlock) (s2 : St), s.idx ≤ s2.idx → s2.idx ≤ toks.length →
+      (if tokIs toks s2.idx "," = true then
+        match toks[s2.idx]? with
+        | some t => Fw toks s { idx := s2.idx + 1, diags := s2.diags }
+        | none => Fw toks s s2
+      else Fw toks s s2) := by
+    intro b s2 h2 h2l
+    split
+    · split
+      · rename_i t ht
+        have := get_lt ht
+        exact ⟨by simp only []; omega, by simp only []; omega⟩
+      · exact ⟨h2, h2l⟩
+    · exact ⟨h2, h2l⟩
+  split
+  · refine wp_mono (ih.block s hs) ?_
+    intro b s1 m1
+    exact fin b s1 m1.1 m1.2
+  · refine wp_mono (ih.exprT true s hs) ?_
+    intro e s1 m1
+    exact fin ⟨[e.e], e.pos⟩ s1 m1.1 m1.2.1
+
+theorem step_assertE : ∀ s, s.idx ≤ toks.length → tokIs toks s.idx "assert" = true →
+    wp (parseAssert toks false (fuel + 1)) (fun _ s' => Sf toks s s') s := by
+  intro s hs hk
+  rw [parseAssert]
+  wpsimp'
+  refine wp_mono (spec_requireToken toks hne "assert" s hs) ?_
+  intro o s1 m1
+  have e1 := rt_eq m1.2 hk
+  refine wp_mono (spec_requireToken toks hne "(" s1 m1.1) ?_
+  intro _ s2 m2
+  have b2 := rt_le m2.2
+  split
+  · rename_i hp
+    obtain ⟨t, ht, _⟩ := tokIs_get hp
+    have := get_lt ht
+    simp only [ht]
+    exact ⟨by simp only []; omega, by simp only []; omega⟩
+  · refine wp_mono (ih.exprT true s2 m2.1) ?_
+    intro e s3 m3
+    refine wp_mono (spec_requireToken toks hne ")" s3 m3.2.1) ?_
+    intro _ s4 m4
+    have b4 := rt_le m4.2
+    have := m3.1
+    exact ⟨by omega, m4.1⟩
+
+theorem step_whileE : ∀ s, s.idx ≤ toks.length → tokIs toks s.idx "while" = true →
+    wp (parseWhile toks false (fuel + 1)) (fun _ s' => Sf toks s s') s := by
+  intro s hs hk
+  rw [parseWhile]
+  wpsimp'
+  refine wp_mono (spec_requireToken toks hne "while" s hs) ?_
+  intro o s1 m1
+  have e1 := rt_eq m1.2 hk
+  refine wp_mono (ih.exprT true s1 m1.1) ?_
+  intro c s2 m2
+  refine wp_mono (ih.block s2 m2.2.1) ?_
+  intro b s3 m3
+  have := m2.1; have := m3.1
+  exact ⟨by omega, m3.2⟩
+
+theorem step_retE : ∀ s, s.idx ≤ toks.length → tokIs toks s.idx "return" = true →
+    wp (parseReturn toks false (fuel + 1)) (fun _ s' => Sf toks s s') s := by
+  intro s hs hk
+  rw [parseReturn]
+  wpsimp'
+  refine wp_mono (spec_requireToken toks hne "return" s hs) ?_
+  intro o s1 m1
+  have e1 := rt_eq m1.2 hk
+  cases ht : toks[s1.idx]? with
+  | none => tk ht; wpsimp'; exact ⟨by omega, m1.1⟩
+  | some t =>
+    tk ht
+    split
+    · wpsimp'
+      refine wp_mono (ih.exprT true s1 m1.1) ?_
+      intro e s2 m2
+      have := m2.1
+      exact ⟨by omega, m2.2.1⟩
+    · wpsimp'; exact ⟨by omega, m1.1⟩
+
+theorem step_ifE : ∀ s, s.idx ≤ toks.length → tokIs toks s.idx "if" = true →
+    wp (parseIf toks false (fuel + 1)) (fun _ s' => Sf toks s s') s := by
+  intro s hs hk
+  rw [parseIf]
+  wpsimp'
+  refine wp_mono (spec_requireToken toks hne "if" s hs) ?_
+  intro o s1 m1
+  have e1 := rt_eq m1.2 hk
+  refine wp_mono (ih.exprT true s1 m1.1) ?_
+  intro c s2 m2
+  refine wp_mono (ih.block s2 m2.2.1) ?_
+  intro b s3 m3
+  have := m2.1; have := m3.1
+  split
+  · have fin : ∀ s4 : St, s3.idx ≤ s4.idx → s4.idx ≤ toks.length →
+        (if tokIs toks s4.idx "if" = true then wp (parseIf toks false fuel) (fun a s' => Sf toks s s') s4
+         else wp (parseBlock toks false fuel) (fun a s' => Sf toks s s') s4) := by
+      intro s4 h34 h4
+      split
+      · rename_i hif
+        refine wp_mono (ih.ifE s4 h4 hif) ?_
+        intro _ s5 m5
+        exact ⟨by have := m5.1; omega, m5.2⟩
+      · refine wp_mono (ih.block s4 h4) ?_
+        intro _ s5 m5
+        exact ⟨by have := m5.1; omega, m5.2⟩
+    split
+    · rename_i t ht
+      have := get_lt ht
+      exact fin ⟨s3.idx + 1, s3.diags⟩ (Nat.le_succ _) (by first | omega | (simp only []; omega))
+    · exact fin s3 (Nat.le_refl _) m3.2
+  · exact ⟨by omega, m3.2⟩
+
+theorem step_letE : ∀ s, s.idx ≤ toks.length → tokIs toks s.idx "let" = true →
+    wp (parseLet toks false (fuel + 1)) (fun _ s' => Sf toks s s') s := by
+  intro s hs hk
+  rw [parseLet]
+  wpsimp'
+  refine wp_mono (spec_requireToken toks hne "let" s hs) ?_
+  intro o s1 m1
+  have e1 := rt_eq m1.2 hk
+  refine wp_mono (parseLetDestination_ok toks hne hl fuel s1 m1.1) ?_
+  intro d s2 m2
+  refine wp_mono (parseColonAndHintOpt_ok toks hne hl fuel s2 m2.1) ?_
+  intro h s3 m3
+  have hst := kw_strict hk (by decide) (e1 ▸ Mv.trans m2 m3)
+  refine wp_mono (spec_requireToken toks hne "=" s3 m3.1) ?_
+  intro _ s4 m4
+  have b4 := rt_le m4.2
+  refine wp_mono (ih.exprT true s4 m4.1) ?_
+  intro e s5 m5
+  have := m5.1
+  exact ⟨by omega, m5.2.1⟩
+
+theorem step_forE : ∀ s, s.idx ≤ toks.length → tokIs toks s.idx "for" = true →
+    wp (parseForIn toks false (fuel + 1)) (fun _ s' => Sf toks s s') s := by
+  intro s hs hk
+  rw [parseForIn]
+  wpsimp'
+  refine wp_mono (spec_requireToken toks hne "for" s hs) ?_
+  intro o s1 m1
+  have e1 := rt_eq m1.2 hk
+  refine wp_mono (parseLetDestination_ok toks hne hl fuel s1 m1.1) ?_
+  intro d s2 m2
+  have hst := kw_strict hk (by decide) (e1 ▸ m2)
+  refine wp_mono (spec_requireToken toks hne "in" s2 m2.1) ?_
+  intro _ s3 m3
+  have b3 := rt_le m3.2
+  refine wp_mono (ih.exprT true s3 m3.1) ?_
+  intro e s4 m4
+  refine wp_mono (ih.block s4 m4.2.1) ?_
+  intro b s5 m5
+  have := m4.1; have := m5.1
+  exact ⟨by omega, m5.2⟩
+
+theorem step_tryE : ∀ s, s.idx ≤ toks.length → tokIs toks s.idx "try" = true →
+    wp (parseTry toks false (fuel + 1)) (fun _ s' => Sf toks s s') s := by
+  intro s hs hk
+  rw [parseTry]
+  wpsimp'
+  refine wp_mono (spec_requireToken toks hne "try" s hs) ?_
+  intro o s1 m1
+  have e1 := rt_eq m1.2 hk
+  refine wp_mono (ih.block s1 m1.1) ?_
+  intro b s2 m2
+  refine wp_mono (spec_requireToken toks hne "catch" s2 m2.2) ?_
+  intro _ s3 m3
+  have b3 := rt_le m3.2
+  refine wp_mono (spec_requireToken toks hne "(" s3 m3.1) ?_
+  intro _ s4 m4
+  have b4 := rt_le m4.2
+  refine wp_mono (spec_parseSymbol toks hne hl false s4 m4.1) ?_
+  intro x s5 m5
+  have h14 : Mv toks (s.idx + 1) s4.idx := Mv.step (by have := m2.1; omega) m4.1
+  have hst := kw_strict hk (by decide) (Mv.trans h14 m5.1)
+  refine wp_mono (spec_requireToken toks hne ")" s5 m5.1.1) ?_
+  intro _ s6 m6
+  have b6 := rt_le m6.2
+  refine wp_mono (ih.block s6 m6.1) ?_
+  intro c s7 m7
+  have := m7.1
+  exact ⟨by omega, m7.2⟩
+
+theorem step_lambda : ∀ s, s.idx ≤ toks.length → tokIs toks s.idx "fun" = true →
+    wp (parseLambda toks false (fuel + 1)) (fun _ s' => Sf toks s s') s := by
+  intro s hs hk
+  rw [parseLambda]
+  wpsimp'
+  refine wp_mono (spec_requireToken toks hne "fun" s hs) ?_
+  intro o s1 m1
+  have e1 := rt_eq m1.2 hk
+  refine wp_mono (parseTypeParams_ok toks hne hl fuel s1 m1.1) ?_
+  intro tps s2 m2
+  refine wp_mono (parseParameters_ok toks hne hl fuel s2 m2.1) ?_
+  intro ps s3 m3
+  refine wp_mono (parseColonAndHintOpt_ok toks hne hl fuel s3 m3.1) ?_
+  intro r s4 m4
+  have hst := kw_strict hk (by decide) (e1 ▸ Mv.trans (Mv.trans m2 m3) m4)
+  refine wp_mono (ih.block s4 m4.1) ?_
+  intro b s5 m5
+  have := m5.1
+  exact ⟨by omega, m5.2⟩
+
+theorem step_matchL : ∀ acc s, s.idx ≤ toks.length →
+    wp (matchLoop toks false (fuel + 1) acc) (fun _ s' => Mv toks s.idx s'.idx) s := by
+  intro acc s hs
+  rw [matchLoop]
+  wpsimp'
+  cases ht : toks[s.idx]? with
+  | none => tk ht; wpsimp'; exact Mv.refl hs
+  | some t =>
+    tk ht
+    split
+    · wpsimp'; exact Mv.refl hs
+    · wpsimp'
+      refine wp_mono (parsePattern_ok toks hne hl fuel s hs) ?_
+      intro p s1 m1
+      refine wp_mono (spec_requireToken toks hne "=>" s1 m1.1) ?_
+      intro _ s2 m2
+      have b2 := rt_le m2.2
+      refine wp_mono (ih.caseBlock s2 m2.1) ?_
+      intro b s3 m3
+      have m13 : Mv toks s.idx s3.idx := Mv.trans m1 (Mv.step (by have := m3.1; omega) m3.2)
+      split
+      · exact m13
+      · refine wp_mono (ih.matchL _ s3 m3.2) ?_
+        intro _ s4 m4
+        exact Mv.trans m13 m4
+
+theorem step_matchE : ∀ s, s.idx ≤ toks.length → tokIs toks s.idx "match" = true →
+    wp (parseMatch toks false (fuel + 1)) (fun _ s' => Sf toks s s') s := by
+  intro s hs hk
+  rw [parseMatch]
+  wpsimp'
+  refine wp_mono (spec_requireToken toks hne "match" s hs) ?_
+  intro o s1 m1
+  have e1 := rt_eq m1.2 hk
+  refine wp_mono (ih.exprT true s1 m1.1) ?_
+  intro e s2 m2
+  refine wp_mono (spec_requireToken toks hne "{" s2 m2.2.1) ?_
+  intro o2 s3 m3
+  have b3 := rt_le m3.2
+  have := m2.1
+  split
+  · exact ⟨by omega, m3.1⟩
+  · refine wp_mono (ih.matchL [] s3 m3.1) ?_
+    intro cs s4 m4
+    have hst := kw_strict hk (by decide) (Mv.trans (Mv.step (by omega) m3.1) m4)
+    refine wp_mono (spec_requireToken toks hne "}" s4 m4.1) ?_
+    intro _ s5 m5
+    have b5 := rt_le m5.2
+    exact ⟨by omega, m5.1⟩
+
+theorem step_assign : ∀ s, s.idx < toks.length →
+    wp (parseAssign toks false (fuel + 1)) (fun r s' => Ex toks s r s') s := by
+  intro s hs
+  rw [parseAssign]
+  wpsimp'
+  refine wp_mono (spec_parseSymbol toks hne hl false s (Nat.le_of_lt hs)) ?_
+  intro v s1 m1
+  have b1 := m1.2 hs
+  split
+  · exact ⟨b1.1, m1.1.1, fun h => by simp [Expr.isInvalidOrPlaceholder] at h⟩
+  · rename_i hp
+    refine wp_mono (spec_requireToken toks hne "=" s1 m1.1.1) ?_
+    intro _ s2 m2
+    have e2 := rt_eq m2.2 (by simpa using hp)
+    refine wp_mono (ih.exprT true s2 m2.1) ?_
+    intro e s3 m3
+    have := m3.1
+    exact ⟨by omega, m3.2.1, fun _ => by omega⟩
+
+theorem step_update : ∀ s, s.idx + 2 ≤ toks.length →
+    wp (parseAssignUpdate toks false (fuel + 1)) (fun _ s' => Sf toks s s') s := by
+  intro s hs
+  rw [parseAssignUpdate]
+  wpsimp'
+  refine wp_mono (spec_parseSymbol toks hne hl false s (by omega)) ?_
+  intro v s1 m1
+  have b1 := m1.2 (by omega)
+  refine wp_mono (spec_requireAToken toks hne s1 m1.1.1) ?_
+  intro t s2 m2
+  have h2 : s2.idx = s1.idx + 1 := by
+    rcases m2 with ⟨t0, _, _, h⟩ | ⟨hn, _, _, _, _⟩
+    · exact h
+    · have := get_none hn; omega
+  have fin : ∀ (op : String) (s3 : St), s3.idx = s2.idx →
+      wp (parseExpressionT toks false true fuel) (fun a s' => Sf toks s s') s3 := by
+    intro op s3 h3
+    refine wp_mono (ih.exprT true s3 (by omega)) ?_
+    intro e s4 m4
+    have := m4.1
+    exact ⟨by omega, m4.2.1⟩
+  split
+  · exact fin "+=" s2 rfl
+  · split
+    · exact fin "-=" s2 rfl
+    · exact fin "+=" _ rfl
+
+theorem step_noTrail : ∀ s, s.idx ≤ toks.length →
+    wp (parseNoTrailing toks false (fuel + 1)) (fun r s' => Ex toks s r s') s := by
+  intro s hs
+  rw [parseNoTrailing]
+  wpsimp'
+  have sf : ∀ {r : PExpr} {s' : St}, Sf toks s s' → Ex toks s r s' :=
+    fun h => ⟨Nat.le_of_lt h.1, h.2, fun _ => h.1⟩
+  cases h0 : toks[s.idx]? with
+  | none =>
+    simp only [h0, Option.map_none]
+    simp
+    exact ih.simple s hs
+  | some t0 =>
+    have hlt := get_lt h0
+    have kw : ∀ k : String, (t0.text == k) = true → tokIs toks s.idx k = true := by
+      intro k hk; simp only [tokIs, h0]; exact hk
+    have rt : ∀ k : String, (t0.text == k) = true →
+        wp (requireToken toks k) (fun a s' => Ex toks s ⟨Expr.brk, a.pos⟩ s' ∧ Ex toks s ⟨Expr.cont, a.pos⟩ s') s := by
+      intro k hk
+      refine wp_mono (spec_requireToken toks hne k s hs) ?_
+      intro a s1 m1
+      have := rt_eq m1.2 (kw k hk)
+      exact ⟨⟨by omega, m1.1, fun _ => by omega⟩, ⟨by omega, m1.1, fun _ => by omega⟩⟩
+    cases h1 : toks[s.idx + 1]? with
+    | none =>
+      simp only [h0, h1, Option.map_none, Option.map_some]
+      simp only [show (("" : String) == "=") = false by decide, show (("" : String) == "+=") = false by decide,
+        show (("" : String) == "-=") = false by decide, Bool.or_false, Bool.false_eq_true, ↓reduceIte]
+      repeat' split
+      all_goals first
+        | exact wp_mono (ih.letE s hs (kw _ (by assumption))) (fun _ _ m => sf m)
+        | exact wp_mono (ih.retE s hs (kw _ (by assumption))) (fun _ _ m => sf m)
+        | exact wp_mono (ih.whileE s hs (kw _ (by assumption))) (fun _ _ m => sf m)
+        | exact wp_mono (ih.forE s hs (kw _ (by assumption))) (fun _ _ m => sf m)
+        | exact wp_mono (rt _ (by assumption)) (fun _ _ m => m.1)
+        | exact wp_mono (rt _ (by assumption)) (fun _ _ m => m.2)
+        | exact wp_mono (ih.ifE s hs (kw _ (by assumption))) (fun _ _ m => sf m)
+        | exact wp_mono (ih.matchE s hs (kw _ (by assumption))) (fun _ _ m => sf m)
+        | exact wp_mono (ih.tryE s hs (kw _ (by assumption))) (fun _ _ m => sf m)
+        | exact ih.simple s hs
+    | some t1 =>
+      have hlt1 := get_lt h1
+      simp only [h0, h1, Option.map_some]
+      refine ite_intro (fun _ => ih.assign s hlt) fun _ => ?_
+      refine ite_intro (fun _ => wp_mono (ih.update s (by omega)) (fun _ _ m => sf m)) fun _ => ?_
+      refine ite_intro (fun c => wp_mono (ih.letE s hs (kw _ c)) (fun _ _ m => sf m)) fun _ => ?_
+      refine ite_intro (fun c => wp_mono (ih.retE s hs (kw _ c)) (fun _ _ m => sf m)) fun _ => ?_
+      refine ite_intro (fun c => wp_mono (ih.whileE s hs (kw _ c)) (fun _ _ m => sf m)) fun _ => ?_
+      refine ite_intro (fun c => wp_mono (ih.forE s hs (kw _ c)) (fun _ _ m => sf m)) fun _ => ?_
+      refine ite_intro (fun c => wp_mono (rt _ c) (fun _ _ m => m.1)) fun _ => ?_
+      refine ite_intro (fun c => wp_mono (rt _ c) (fun _ _ m => m.2)) fun _ => ?_
+      refine ite_intro (fun c => wp_mono (ih.ifE s hs (kw _ c)) (fun _ _ m => sf m)) fun _ => ?_
+      refine ite_intro (fun c => wp_mono (ih.matchE s hs (kw _ c)) (fun _ _ m => sf m)) fun _ => ?_
+      refine ite_intro (fun c => wp_mono (ih.tryE s hs (kw _ c)) (fun _ _ m => sf m)) fun _ => ?_
+      exact ih.simple s hs
+
+theorem spec_parseInteger (s : St) (t0 : Tok) (h0 : toks[s.idx]? = some t0) :
+    wp (parseInteger toks) (fun _ s' => s'.idx = s.idx + 1) s := by
+  unfold parseInteger
+  wpsimp'
+  refine wp_mono (spec_requireAToken toks hne s (Nat.le_of_lt (get_lt h0))) ?_
+  intro t s1 m1
+  have h1 : s1.idx = s.idx + 1 := by
+    rcases m1 with ⟨_, _, _, h⟩ | ⟨hn, _⟩
+    · exact h
+    · rw [h0] at hn; cases hn
+  split
+  · split <;> (try wpsimp') <;> exact h1
+  · (try wpsimp'); exact h1
+
+theorem spec_parseFloat (s : St) (t0 : Tok) (h0 : toks[s.idx]? = some t0) :
+    wp (parseFloat toks) (fun _ s' => s'.idx = s.idx + 1) s := by
+  unfold parseFloat
+  wpsimp'
+  refine wp_mono (spec_requireAToken toks hne s (Nat.le_of_lt (get_lt h0))) ?_
+  intro t s1 m1
+  rcases m1 with ⟨t0', ht0', rfl, h1⟩ | ⟨hn, _⟩
+  · rw [h0] at ht0'; cases ht0'
+    split
+    · rename_i hf
+      have := hl.floats t0 (mem_of_get h0) hf
+      simp only [TokI.text] at this ⊢
+      simp only [this, ↓reduceIte, wp_pure]
+      exact h1
+    · (try wpsimp'); exact h1
+  · rw [h0] at hn; cases hn
+
+theorem sym_ne_rbrace {x : String} (h : isSymbolTok x = true) : (x == "}") = false := by
+  cases hx : (x == "}") with
+  | false => rfl
+  | true =>
+    have : x = "}" := by simpa using hx
+    subst this
+    revert h; decide
+
+theorem step_simple : ∀ s, s.idx ≤ toks.length →
+    wp (parseSimple toks false (fuel + 1)) (fun r s' => Ex toks s r s') s := by
+  intro s hs
+  rw [parseSimple]
+  wpsimp'
+  have sf : ∀ {r : PExpr} {s' : St}, Sf toks s s' → Ex toks s r s' :=
+    fun h => ⟨Nat.le_of_lt h.1, h.2, fun _ => h.1⟩
+  have fs : ∀ {r : PExpr} {s' : St} {p : Prop}, p → (Fw toks s s' ∧ (p → s.idx < s'.idx)) → Ex toks s r s' :=
+    fun hp h => ⟨h.1.1, h.1.2, fun _ => h.2 hp⟩
+  cases h0 : toks[s.idx]? with
+  | none =>
+    simp only [h0, Option.map_none]
+    wpsimp'
+    exact ⟨Nat.le_refl _, hs, fun h => by simp [Expr.isInvalidOrPlaceholder] at h⟩
+  | some t0 =>
+    have hlt := get_lt h0
+    have kw : ∀ k : String, (t0.text == k) = true → tokIs toks s.idx k = true := by
+      intro k hk; simp only [tokIs, h0]; exact hk
+    simp only [h0, Option.map_some]
+    wpsimp'
+    refine ite_intro (fun c => wp_mono (ih.tupleParen s hs) (fun _ _ m => fs (kw _ c) m)) fun _ => ?_
+    refine ite_intro (fun c => wp_mono (ih.listLit s hs) (fun _ _ m => fs (kw _ c) m)) fun _ => ?_
+    refine ite_intro (fun c => wp_mono (ih.dictLit s hs) (fun _ _ m => fs (kw _ c) m)) fun _ => ?_
+    refine ite_intro (fun c => wp_mono (ih.lambda s hs (kw _ (by
+      have : (t0.text == "fun") = true := by
+        have c' := c
+        simp only [Bool.and_eq_true] at c'
+        exact c'.1
+      exact this))) (fun _ _ m => sf m)) fun _ => ?_
+    refine ite_intro (fun c => wp_mono (ih.assertE s hs (kw _ c)) (fun _ _ m => sf m)) fun _ => ?_
+    refine ite_intro (fun hsym => ?_) fun _ => ?_
+    · -- symbol-like token
+      refine ite_intro (fun c => ?_) fun _ => ?_
+      · -- struct literal: the next token exists
+        have h2 : s.idx + 2 ≤ toks.length := by
+          cases h1 : toks[s.idx + 1]? with
+          | none => simp [h1] at c
+          | some t1 => have := get_lt h1; omega
+        have hrb : tokIs toks s.idx "}" = false := by
+          simp only [tokIs, h0]; exact sym_ne_rbrace toks hne hl fuel ih hsym
+        exact wp_mono (ih.structLit s h2 hrb) (fun _ _ m => sf m)
+      · unfold parseVariable
+        wpsimp'
+        refine wp_mono (spec_parseSymbol toks hne hl false s hs) ?_
+        intro v s1 m1
+        have b := m1.2 hlt
+        refine ⟨b.1, m1.1.1, fun hph => ?_⟩
+        have := b.2.2 (by simpa [Expr.isInvalidOrPlaceholder, isPlaceholderName] using hph)
+        omega
+    · refine ite_intro (fun _ => ?_) fun _ => ?_
+      · -- string literal
+        simp only [h0]
+        refine wp_mono (spec_diagN toks hne _ _ _) ?_
+        intro _ s1 m1
+        refine ⟨by simp only [m1]; omega, by simp only [m1]; omega, fun _ => by simp only [m1]; omega⟩
+      · refine ite_intro (fun _ => ?_) fun _ => ?_
+        · refine wp_mono (spec_parseFloat toks hne hl fuel ih s t0 h0) ?_
+          intro _ s1 m1; exact ⟨by omega, by omega, fun _ => by omega⟩
+        · refine ite_intro (fun _ => ?_) fun _ => ?_
+          · refine wp_mono (spec_parseInteger toks hne hl fuel ih s t0 h0) ?_
+            intro _ s1 m1; exact ⟨by omega, by omega, fun _ => by omega⟩
+          · exact ⟨Nat.le_refl _, hs, fun h => by simp [Expr.isInvalidOrPlaceholder] at h⟩
+
+theorem step_exprT : ∀ b s, s.idx ≤ toks.length →
+    wp (parseExpressionT toks false b (fuel + 1)) (fun r s' => Ex toks s r s') s := by
+  intro b s hs
+  rw [parseExpressionT]
+  wpsimp'
+  refine wp_mono (ih.noTrail s hs) ?_
+  intro e s1 m1
+  refine wp_mono (ih.trail b e s1 m1.2.1) ?_
+  intro r s2 m2
+  refine ⟨by have := m2.1.1; have := m1.1; omega, m2.1.2, fun hr => ?_⟩
+  rcases m2.2 with h | h
+  · have := m1.2.2 (h ▸ hr); have := m2.1.1; omega
+  · have := m1.1; omega
+
+theorem step_trail : ∀ b e s, s.idx ≤ toks.length →
+    wp (trailing toks false b (fuel + 1) e) (fun r s' => Fw toks s s' ∧ (r = e ∨ s.idx < s'.idx)) s := by
+  intro b e s hs
+  rw [trailing]
+  wpsimp'
+  cases h0 : toks[s.idx]? with
+  | none => simp only [h0, Option.map_none]; wpsimp'; exact ⟨⟨Nat.le_refl _, hs⟩, (by simp)⟩
+  | some t0 =>
+    have hlt := get_lt h0
+    simp only [h0, Option.map_some]
+    wpsimp'
+    -- continuing the loop from a state strictly beyond `s`
+    have cont : ∀ (e' : PExpr) (s2 : St), s.idx < s2.idx → s2.idx ≤ toks.length →
+        (if s2.idx > s.idx then wp (trailing toks false b fuel e') (fun r s' => Fw toks s s' ∧ (r = e ∨ s.idx < s'.idx)) s2
+         else False) := by
+      intro e' s2 h2 h2l
+      rw [if_pos h2]
+      refine wp_mono (ih.trail b e' s2 h2l) ?_
+      intro r s3 m3
+      exact ⟨⟨by have := m3.1.1; omega, m3.1.2⟩, Or.inr (by have := m3.1.1; omega)⟩
+    refine ite_intro (fun c => ?_) fun _ => ?_
+    · -- call
+      have hp : tokIs toks s.idx "(" = true := by
+        simp only [tokIs, h0]
+        simp only [Bool.and_eq_true] at c
+        exact c.1.1
+      refine wp_mono (ih.callArgs s hs) ?_
+      intro r s1 m1
+      obtain ⟨args, close⟩ := r
+      exact cont _ s1 (m1.2 hp) m1.1.2
+    · refine ite_intro (fun _ => ?_) fun _ => ?_
+      · -- dot
+        simp only [h0]
+        cases h1 : toks[s.idx + 1]? with
+        | none =>
+          simp only [h1, Option.map_none, Bool.false_eq_true, ↓reduceIte]
+          (try wpsimp')
+          exact cont _ ⟨s.idx + 1, s.diags ++ [DiagKind.invalid]⟩ (Nat.lt_succ_self _) hlt
+        | some t1 =>
+          have hlt1 := get_lt h1
+          simp only [h1, Option.map_some]
+          refine ite_intro (fun _ => ?_) fun _ => ?_
+          · refine wp_mono (spec_parseSymbol toks hne hl false ⟨s.idx + 1, s.diags⟩ (by first | omega | (simp only []; omega))) ?_
+            intro v s2 m2
+            have b2 := m2.2 (by first | omega | (simp only []; omega))
+            simp only [] at b2
+            refine ite_intro (fun _ => ?_) fun _ => ?_
+            · refine wp_mono (ih.callArgs s2 m2.1.1) ?_
+              intro r s3 m3
+              obtain ⟨args, close⟩ := r
+              exact cont _ s3 (by have := m3.1.1; omega) m3.1.2
+            · exact cont _ s2 (by omega) m2.1.1
+          · (try wpsimp')
+            exact cont _ ⟨s.idx + 1, s.diags ++ [DiagKind.invalid]⟩ (Nat.lt_succ_self _) hlt
+      · refine ite_intro (fun _ => ?_) fun _ => ?_
+        · -- ::
+          simp only [h0]
+          cases h1 : toks[s.idx + 1]? with
+          | none =>
+            simp only [h1, Option.map_none, Bool.false_eq_true, ↓reduceIte]
+            (try wpsimp')
+            exact cont _ ⟨s.idx + 1, s.diags ++ [DiagKind.invalid]⟩ (Nat.lt_succ_self _) hlt
+          | some t1 =>
+            have hlt1 := get_lt h1
+            simp only [h1, Option.map_some]
+            refine ite_intro (fun _ => ?_) fun _ => ?_
+            · refine wp_mono (spec_parseSymbol toks hne hl false ⟨s.idx + 1, s.diags⟩ (by first | omega | (simp only []; omega))) ?_
+              intro v s2 m2
+              have b2 := m2.2 (by first | omega | (simp only []; omega))
+              simp only [] at b2
+              exact cont _ s2 (by omega) m2.1.1
+            · (try wpsimp')
+              exact cont _ ⟨s.idx + 1, s.diags ++ [DiagKind.invalid]⟩ (Nat.lt_succ_self _) hlt
+        · refine ite_intro (fun _ => ?_) fun _ => ?_
+          · -- infix operator
+            simp only [h0]
+            refine wp_mono (ih.exprT false ⟨s.idx + 1, s.diags⟩ (by first | omega | (simp only []; omega))) ?_
+            intro rhs s2 m2
+            have := m2.1
+            simp only [] at this
+            exact cont _ s2 (by omega) m2.2.1
+          · exact ⟨⟨Nat.le_refl _, hs⟩, (by simp)⟩
+
+theorem step_fieldsL : ∀ acc s, s.idx ≤ toks.length → wp (fieldsLoop toks false (fuel + 1) acc)
+    (fun _ s' => Mv toks s.idx s'.idx ∧ (s.idx + 2 ≤ toks.length → tokIs toks s.idx "}" = false → s.idx < s'.idx)) s := by
+  intro acc s hs
+  rw [fieldsLoop]
+  wpsimp'
+  refine ite_intro (fun c => ⟨Mv.refl hs, fun _ h => by rw [c] at h; cases h⟩) fun hnb => ?_
+  have hnb' : tokIs toks s.idx "}" = false := by simpa using hnb
+  refine wp_mono (spec_parseSymbol toks hne hl false s hs) ?_
+  intro sym s1 m1
+  -- after the optional colon and the expression
+  let Qf : List Field → St → Prop := fun _ s' =>
+    Mv toks s.idx s'.idx ∧ (s.idx + 2 ≤ toks.length → tokIs toks s.idx "}" = false → s.idx < s'.idx)
+  have afterColon : ∀ s2 : St, s1.idx ≤ s2.idx → s2.idx ≤ toks.length →
+      wp (parseExpressionT toks false true fuel) (fun ex s' =>
+        if (s'.idx == s.idx) = true then wp (skipToCloseBrace toks) (fun _ s' => Qf acc s') s'
+        else
+          wp (match Option.map (fun t => ({ tok := t, i := s'.idx } : TokI)) toks[s'.idx]? with
+            | none => diag DiagKind.incomplete >>= fun _ => pure (acc ++ [Field.mk sym.name ex.e])
+            | some t =>
+              if (t.text == ",") = true then
+                pop toks >>= fun _ => getIdx >>= fun i =>
+                  if (i == s.idx) = true then pure (acc ++ [Field.mk sym.name ex.e])
+                  else fieldsLoop toks false fuel (acc ++ [Field.mk sym.name ex.e])
+              else
+                getIdx >>= fun i =>
+                  if (i == s.idx) = true then pure (acc ++ [Field.mk sym.name ex.e])
+                  else fieldsLoop toks false fuel (acc ++ [Field.mk sym.name ex.e]))
+            Qf s') s2 := by
+    intro s2 h12 h2
+    refine wp_mono (ih.exprT true s2 h2) ?_
+    intro e s3 m3
+    have m13 : Mv toks s.idx s3.idx := Mv.trans m1.1 (Mv.step (by have := m3.1; omega) m3.2.1)
+    refine ite_intro (fun c => ?_) fun c => ?_
+    · have e3 : s3.idx = s.idx := by simpa using c
+      refine wp_mono (spec_skipToCloseBrace toks hne s3 m3.2.1) ?_
+      intro _ s4 m4
+      refine ⟨Mv.trans m13 (Mv.step m4.1 m4.2.1), fun h2l hb => ?_⟩
+      have := m4.2.2 (by rw [e3]; exact hb) (by omega)
+      omega
+    · have n3 : s3.idx ≠ s.idx := by simpa using c
+      have gt3 : s.idx + 2 ≤ toks.length → s.idx < s3.idx := by
+        intro h2l
+        have := (m1.2 (by omega)).1
+        have := m3.1
+        omega
+      have fin : ∀ s4 : St, s3.idx ≤ s4.idx → s4.idx ≤ toks.length →
+          (if (s4.idx == s.idx) = true then Qf (acc ++ [Field.mk sym.name e.e]) s4
+           else wp (fieldsLoop toks false fuel (acc ++ [Field.mk sym.name e.e])) Qf s4) := by
+        intro s4 h34 h4
+        have m14 : Mv toks s.idx s4.idx := Mv.trans m13 (Mv.step h34 h4)
+        refine ite_intro (fun _ => ⟨m14, fun h2l _ => by have := gt3 h2l; omega⟩) fun _ => ?_
+        refine wp_mono (ih.fieldsL _ s4 h4) ?_
+        intro _ s5 m5
+        refine ⟨Mv.trans m14 m5.1, fun h2l _ => ?_⟩
+        have := gt3 h2l
+        have := m5.1
+        simp only [Mv] at this
+        omega
+      cases ht3 : toks[s3.idx]? with
+      | none =>
+        simp only [Option.map_none, wp_bind, wp_diag, wp_pure]
+        exact ⟨m13, fun h2l _ => gt3 h2l⟩
+      | some t3 =>
+        have hl3 := get_lt ht3
+        simp only [Option.map_some]
+        rw [wp_ite]
+        split
+        · simp only [wp_bind, wp_pop, ht3, wp_getIdx, wp_ite, wp_pure]
+          exact fin ⟨s3.idx + 1, s3.diags⟩ (Nat.le_succ _) (by first | omega | (simp only []; omega))
+        · simp only [wp_bind, wp_getIdx, wp_ite, wp_pure]
+          exact fin s3 (Nat.le_refl _) m3.2.1
+  refine ite_intro (fun _ => ?_) fun _ => ?_
+  · -- placeholder name: optional colon
+    refine ite_intro (fun c => ?_) fun _ => ?_
+    · obtain ⟨t, ht, _⟩ := tokIs_get c
+      have := get_lt ht
+      simp only [ht]
+      exact afterColon ⟨s1.idx + 1, s1.diags⟩ (Nat.le_succ _) (by first | omega | (simp only []; omega))
+    · exact afterColon s1 (Nat.le_refl _) m1.1.1
+  · refine wp_mono (spec_requireToken toks hne ":" s1 m1.1.1) ?_
+    intro _ s2 m2
+    have b2 := rt_le m2.2
+    exact afterColon s2 b2.1 m2.1
+
+theorem step_structLit : ∀ s, s.idx + 2 ≤ toks.length → tokIs toks s.idx "}" = false →
+    wp (parseStructLiteral toks false (fuel + 1)) (fun _ s' => Sf toks s s') s := by
+  intro s hs hb
+  rw [parseStructLiteral]
+  wpsimp'
+  refine wp_mono (spec_parseSymbol toks hne hl false s (by omega)) ?_
+  intro name s1 m1
+  have b1 := m1.2 (by omega)
+  refine wp_mono (spec_requireToken toks hne "{" s1 m1.1.1) ?_
+  intro _ s2 m2
+  have b2 := rt_le m2.2
+  refine wp_mono (ih.fieldsL [] s2 m2.1) ?_
+  intro fs s3 m3
+  have h3 : s.idx < s3.idx := by
+    by_cases h : s2.idx = s.idx
+    · have hs2 : s2 = ⟨s.idx, s2.diags⟩ := by cases s2; simp_all
+      have := m3.2 (by omega) (by rw [h]; exact hb)
+      omega
+    · have := m3.1
+      simp only [Mv] at this
+      omega
+  refine wp_mono (spec_requireToken toks hne "}" s3 m3.1.1) ?_
+  intro _ s4 m4
+  have b4 := rt_le m4.2
+  exact ⟨by omega, m4.1⟩
+
+end level2
+section final
+variable (toks : Toks) (hne : toks ≠ []) (hl : LexLike toks)
+include hne hl
+
+/-- The specifications of all 28 functions of the expression block hold for EVERY fuel. -/
+theorem specs_all : ∀ fuel, Specs toks fuel := by
+  intro fuel
+  induction fuel with
+  | zero => exact specs_zero toks
+  | succ fuel ih =>
+    exact {
+      exprT := step_exprT toks hne hl fuel ih
+      trail := step_trail toks hne hl fuel ih
+      callArgs := step_callArgs toks hne hl fuel ih
+      comma := step_comma toks hne hl fuel ih
+      noTrail := step_noTrail toks hne hl fuel ih
+      simple := step_simple toks hne hl fuel ih
+      tupleParen := step_tupleParen toks hne hl fuel ih
+      tupleL := step_tupleL toks hne hl fuel ih
+      listLit := step_listLit toks hne hl fuel ih
+      dictLit := step_dictLit toks hne hl fuel ih
+      dictL := step_dictL toks hne hl fuel ih
+      lambda := step_lambda toks hne hl fuel ih
+      assertE := step_assertE toks hne hl fuel ih
+      ifE := step_ifE toks hne hl fuel ih
+      whileE := step_whileE toks hne hl fuel ih
+      tryE := step_tryE toks hne hl fuel ih
+      forE := step_forE toks hne hl fuel ih
+      retE := step_retE toks hne hl fuel ih
+      structLit := step_structLit toks hne hl fuel ih
+      fieldsL := step_fieldsL toks hne hl fuel ih
+      matchE := step_matchE toks hne hl fuel ih
+      matchL := step_matchL toks hne hl fuel ih
+      caseBlock := step_caseBlock toks hne hl fuel ih
+      block := step_block toks hne hl fuel ih
+      blockL := step_blockL toks hne hl fuel ih
+      letE := step_letE toks hne hl fuel ih
+      assign := step_assign toks hne hl fuel ih
+      update := step_update toks hne hl fuel ih }
+
+def isPanic {α} : Res α → Bool
+  | .panic _ => true
+  | _ => false
+
+theorem not_panic_of_wp {α} {m : P α} {Q : α → St → Prop} {s : St} (h : wp m Q s) : isPanic (m s) = false := by
+  unfold wp at h
+  cases hm : m s with
+  | ok a s' => rfl
+  | panic p => rw [hm] at h; exact h.elim
+  | outOfFuel => rfl
+
+/-- **C01, parser half (partial: everything below the definitions level).** For every non-empty,
+lexer-like token list, every fuel, every state inside the token list and both settings of the
+infix flag, `parse_expression` does not panic — none of the progress assertions (parser.rs:328, 404,
+1082, 1361, 2334 and the former 1995, 2183, 2812), `expect`s, `unwrap`s or `unpop` fire — and it
+returns at or beyond the index it started at, strictly beyond unless the result is `Invalid` / a
+placeholder variable. -/
+theorem parse_no_panic_partial (fuel : Nat) (b : Bool) (s : St) (hs : s.idx ≤ toks.length) :
+    isPanic (parseExpressionT toks false b fuel s) = false :=
+  not_panic_of_wp toks hne hl ((specs_all toks hne hl fuel).exprT b s hs)
+
+/-- The same for `parse_block` (function bodies, toplevel blocks). -/
+theorem parseBlock_no_panic (fuel : Nat) (s : St) (hs : s.idx ≤ toks.length) :
+    isPanic (parseBlock toks false fuel s) = false :=
+  not_panic_of_wp toks hne hl ((specs_all toks hne hl fuel).block s hs)
+
+/-- The progress fact the code's assertions gesture at, for `parse_expression`. -/
+theorem parseExpression_progress (fuel : Nat) (s : St) (hs : s.idx ≤ toks.length) (r : PExpr) (s' : St)
+    (h : parseExpression toks false fuel s = .ok r s') :
+    s.idx ≤ s'.idx ∧ s'.idx ≤ toks.length ∧ (r.e.isInvalidOrPlaceholder = false → s.idx < s'.idx) := by
+  have := (specs_all toks hne hl fuel).exprT true s hs
+  unfold wp at this
+  rw [show parseExpressionT toks false true fuel s = parseExpression toks false fuel s from rfl, h] at this
+  exact this
+
+end final
+
 
 /-! ### Evaluated witnesses (tests, not the theorem) -/
 
